@@ -1,6 +1,6 @@
 #!/venv/bin/python
 """tools/mkseeded.py : folds seeded/<id>/confirmed.txt (written by tools/confirm_record.sh) into
-seeded/<id>/meta.json and prints the markdown table used in DESIGN.md section 11.5.
+seeded/<id>/meta.json and prints the markdown table used in DESIGN.md section 11.6.
 
   tools/mkseeded.py            -> update meta.json files, print table of all seeded changes
   tools/mkseeded.py C06-m3 ... -> only these ids
